@@ -1,8 +1,104 @@
-(* C02 — property theorems only (filled as the proofs land). *)
+(* C02 — property theorems only.  Model: BFT/Votes.v (faithful to pkg/consensus/liskbft); proofs: BFT/VotesProofs.v.
+   Heights are unbounded N: the statements are about chains whose heights stay below 2^32-1 (Go computes h+1 on uint32). *)
 From Coq Require Import List NArith Bool.
-From LE Require Import BFT.Contradiction BFT.Votes.
+From LE Require Import BFT.Contradiction BFT.Votes BFT.VotesProofs.
+Import ListNotations.
 Local Open Scope N_scope.
 
-Theorem C02_placeholder_determinism : forall batch s l r1 r2,
-  run_blocks batch s l = r1 -> run_blocks batch s l = r2 -> r1 = r2.
+(* Two nodes that processed the same header chain hold the same BFT view (heights, weights, parameters): the view is a
+   function of the header sequence alone.  (Definitional for a Gallina function; the content is that the Go module computes
+   this function — the correspondence check.) *)
+Theorem C02_same_chain_same_view : forall batch gh c K s0 s0' s s',
+  init_store batch gh c = Ok s0 -> init_store batch gh c = Ok s0' ->
+  run_blocks batch s0 K = Ok s -> run_blocks batch s0' K = Ok s' -> s = s'.
 Proof. intros; congruence. Qed.
+
+(* Counting rule (LIP-0058): a block whose generator is active and whose maxHeightGenerated is below its height adds its
+   generator's weight (weight in force at the target height) as a precommit to every window entry at or above
+   max(minActiveHeight, heightNotPrevoted+1, largestHeightPrecommit+1) that already has a prevote quorum, and then as a
+   prevote to every window entry at or above max(maxHeightGenerated+1, minActiveHeight); nothing else changes. *)
+Theorem C02_vote_counting_rule : forall batch s b s1 tip, (0 < batch)%nat ->
+  Inv tip s -> h_height b = tip + 1 -> v_mhp (s_votes s) <= tip -> v_mhpc (s_votes s) <= tip ->
+  before_txs batch s b = Ok s1 ->
+  votes_rule (s_params s) (insert_info (window s) b (3 * batch)) (v_act (s_votes s)) (window s1).
+Proof. intros batch s b s1 tip Hb HI Hh Hp Hpc H. exact (proj1 (proj2 (proj2 (proj2 (before_txs_step batch s b s1 tip Hb HI Hh Hp Hpc H))))). Qed.
+
+(* maxHeightPrevoted / maxHeightPrecommitted = the largest windowed height whose entry reaches the threshold in force at
+   that height; unchanged if there is none *)
+Theorem C02_heights_are_max_quorum : forall batch s b s1 tip, (0 < batch)%nat -> Inv tip s -> h_height b = tip + 1 ->
+  before_txs batch s b = Ok s1 ->
+  ((exists bi, In bi (window s1) /\ i_height bi = v_mhp (s_votes s1) /\ meets (s_params s) p_pv i_pv bi) /\
+   (forall x, In x (window s1) -> meets (s_params s) p_pv i_pv x -> i_height x <= v_mhp (s_votes s1))
+   \/ (v_mhp (s_votes s1) = v_mhp (s_votes s) /\ forall x, In x (window s1) -> ~ meets (s_params s) p_pv i_pv x)) /\
+  ((exists bi, In bi (window s1) /\ i_height bi = v_mhpc (s_votes s1) /\ meets (s_params s) p_pc i_pc bi) /\
+   (forall x, In x (window s1) -> meets (s_params s) p_pc i_pc x -> i_height x <= v_mhpc (s_votes s1))
+   \/ (v_mhpc (s_votes s1) = v_mhpc (s_votes s) /\ forall x, In x (window s1) -> ~ meets (s_params s) p_pc i_pc x)).
+Proof. exact heights_are_max_quorum. Qed.
+
+(* For every chain (any length relative to the window, any parameter-change schedule): the prevoted and precommitted
+   heights never decrease. *)
+Theorem C02_heights_monotone : forall batch gh c K1 K2 s0 s1 s2, (0 < batch)%nat ->
+  init_store batch gh c = Ok s0 -> consecutive gh (K1 ++ K2) ->
+  run_blocks batch s0 K1 = Ok s1 -> run_blocks batch s1 K2 = Ok s2 ->
+  v_mhp (s_votes s1) <= v_mhp (s_votes s2) /\ v_mhpc (s_votes s1) <= v_mhpc (s_votes s2) /\
+  gh <= v_mhp (s_votes s1) /\ gh <= v_mhpc (s_votes s1).
+Proof.
+  intros batch gh c K1 K2 s0 s1 s2 Hb Hi Hc H1 H2.
+  destruct (consecutive_app _ _ _ Hc) as [Hc1 Hc2].
+  pose proof (init_good _ _ _ _ Hi) as Hg0.
+  destruct (heights_monotone batch K1 s0 s1 gh Hb Hg0 Hc1 H1) as (Hg1 & Ha & Hb1).
+  destruct (heights_monotone batch K2 s1 s2 _ Hb Hg1 Hc2 H2) as (_ & Hm & Hmc).
+  assert (E : v_mhp (s_votes s0) = gh /\ v_mhpc (s_votes s0) = gh).
+  { unfold init_store in Hi. destruct (set_params_step _ _ _ _ _ _ _ (genesis_inv gh) Hi) as (_ & _ & E1 & E2 & _). rewrite E1, E2. split; reflexivity. }
+  destruct E as [E1 E2]. rewrite E1 in Ha. rewrite E2 in Hb1. auto.
+Qed.
+
+(* Parameters (thresholds, weights) of a height that is still inside the vote window never change: pruning keeps every
+   entry that a later lookup needs and SetBFTParameters only adds an entry for tip+1. *)
+Theorem C02_params_stable_in_window : forall batch s x s1 tip, (0 < batch)%nat -> good tip s -> h_height (fst x) = tip + 1 ->
+  apply_block batch s x = Ok s1 ->
+  forall h, oldest_height (window s1) <= h <= tip + 1 -> get_params (s_params s1) h = get_params (s_params s) h.
+Proof. exact params_stable_in_window. Qed.
+
+(* The vote window always consists of the (at most 3*batch) most recent headers of the chain, newest first. *)
+Theorem C02_window_is_recent_headers : forall batch gh c K s0 s, (0 < batch)%nat ->
+  init_store batch gh c = Ok s0 -> consecutive gh K -> run_blocks batch s0 K = Ok s ->
+  map static (window s) = firstn (3 * batch) (rev (map (fun x => static_hdr (fst x)) K)).
+Proof.
+  intros batch gh c K s0 s Hb Hi Hc H.
+  pose proof (init_vgood _ _ _ _ Hi) as (Hg & _).
+  assert (Hw : map static (window s0) = firstn (3 * batch) []).
+  { unfold init_store in Hi. destruct (set_params_step _ _ _ _ _ _ _ (genesis_inv gh) Hi) as (_ & Ew & _). rewrite Ew. rewrite firstn_nil. reflexivity. }
+  rewrite (window_is_recent_headers batch K s0 s gh [] Hb Hg Hc Hw H). rewrite app_nil_r. reflexivity.
+Qed.
+
+(* Fault-free round-robin runs (n unit-weight validators, thresholds floor(2n/3)+1, every header carries the node's own
+   maxHeightPrevoted and maxHeightGenerated = the generator's previous height): block j is prevoted once block
+   j+thr-1 is applied and final once block j+2*thr-1 is applied (a precommit needs the prevote quorum to be visible first) — "within two voting quorums of blocks".
+   PARTIAL: proved for every n in 1..12 and every chain length up to 60 by evaluation of the model (finite domain, bound in
+   the statement); the statement for all n is not proved. It also serves as non-vacuity for the theorems above. *)
+Definition rr_header (n : N) (s : store) (h : N) : hdr :=
+  {| h_height := h; h_gen := 1 + (h - 1) mod n; h_mhg := if h <=? n then 0 else h - n;
+     h_mhp := v_mhp (s_votes s); h_cert := None |}.
+Fixpoint rr_loop (batch : nat) (n thr : N) (fuel : nat) (h : N) (s : store) : bool :=
+  match fuel with
+  | O => true
+  | S f =>
+    let b := rr_header n s h in
+    bft_valid s b &&
+    match apply_block batch s (b, None) with
+    | Error _ => false
+    | Ok s' =>
+      (v_mhp (s_votes s') =? (if h <? thr then 0 else h - (thr - 1))) &&
+      (v_mhpc (s_votes s') =? (if h <? 2 * thr then 0 else h - (2 * thr - 1))) &&
+      rr_loop batch n thr f (h + 1) s'
+    end
+  end.
+Definition rr_ok (n : N) : bool :=
+  let thr := 2 * n / 3 + 1 in
+  match init_store (N.to_nat n) 0 {| c_pc := thr; c_cert := thr; c_vals := map (fun a => (a, 1)) (map N.of_nat (seq 1 (N.to_nat n))) |} with
+  | Error _ => false
+  | Ok s0 => rr_loop (N.to_nat n) n thr 60 1 s0
+  end.
+Theorem C02_round_robin_finality_partial : forall n, In n (map N.of_nat (seq 1 12)) -> rr_ok n = true.
+Proof. intros n H. cbn in H. repeat (destruct H as [<-|H]; [vm_compute; reflexivity|]). contradiction. Qed.
